@@ -152,6 +152,8 @@ impl<'a> MetaStoreUpdate<'a> {
         }
         Ok(Some(proxy))
 """)
+    U.log.rule('R-clone', fobj, 'proxy.cluster.clone() -> shim_clone_opt_name (structural clone of Option<ClusterName>)')
+    U.log.rule('overlay', fobj, '1 loop spec, ghost snapshots, proof hints anchored on source text')
     fobj.text = s
     U.add_fn(fobj)
     U.add("} // verus!\nfn main() {}\n")
